@@ -26,6 +26,7 @@ ASSUMPTIONS = [
 REQUIRED = ["removed_0", "removed_1", "removed_2plus", "duplicate_removed", "grouped_removed",
             "union_only_cover_kept"]
 PREFIX = "= "
+_KEEP = __import__("collections").deque(maxlen=256)  # unmodified, already audited ACLs (per process)
 
 
 def items(seed):
@@ -42,11 +43,16 @@ def items(seed):
         I("p_host", X("permit", 0, al["host1"], none, al["any"], none)),
         I("d30", X("deny", 0, al["net30"], none, al["any"], none)),
         I("p_host_log", X("permit", 0, al["host1"], none, al["any"], none, (), ("log",))),
+        # same text as the next item, other (wider) members: results must not be shared by text
+        I("p_grp_wide", X("permit", 0, G.Addr("group:GH(wide)", al["net24"].cubes, "GH", (al["net24"],)),
+                          none, al["any"], none)),
         I("p_grp_memberwise", X("permit", 0, gr["GH"], none, al["any"], none)),
         I("p_grp_union", X("permit", 0, gr["GU"], none, al["any"], none)),
         I("p_tcp_eq", X("permit", 6, al["net24"], none, al["any"], G.PortX("eq", (p,)))),
         I("p_tcp_range", X("permit", 6, al["host1"], none, al["any"], G.PortX("range", (p - 5, p + 5)))),
         I("d_tcp_eq", X("deny", 6, al["any"], none, al["any"], G.PortX("eq", (p,)))),
+        I("p_tcp_neq2", X("permit", 6, al["any"], none, al["any"], G.PortX("neq", (p, p + 1)))),
+        I("p_tcp_neq1", X("permit", 6, al["any"], none, al["any"], G.PortX("neq", (p,)))),
         I("p_grp_both", X("permit", 0, gr["GH"], none, gr["GE"], none)),
         I("p_host_to_host", X("permit", 0, al["host1"], none, al["host2"], none)),
         I("p_tcp_multi", X("permit", 6, al["any"], none, al["any"], G.PortX("eq", (p - 5, p + 5)))),
@@ -58,7 +64,9 @@ def items(seed):
     ]
 
 
-SHADOW_ONLY = [0, 1, 2, 3, 4, 8, 10, 13, 14]  # the items that can shadow each other (longer lists)
+SHADOW_ONLY = [0, 1, 2, 3, 4, 9, 11, 16, 17]
+HEAVY = [12, 13]
+CORE = [0, 1, 2, 3, 4, 5, 7, 9, 11, 19, 20, 21]  # grouped/numbered variants at full length  # the items that can shadow each other (longer lists)
 
 
 def _L(tier):
@@ -79,13 +87,14 @@ def describe(tier, seed):
 
 def units(tier, seed):
     n = len(items(seed))
-    out = [dict(kind="short")]
+    out = [dict(kind="short", first=a) for a in range(n)]
     for a in range(n):
         for b in range(n):
             out.append(dict(kind="lists", first=[a, b]))
     for a in SHADOW_ONLY:
         for b in SHADOW_ONLY:
             out.append(dict(kind="long", first=[a, b]))
+    out.append(dict(kind="twins"))
     return out
 
 
@@ -94,16 +103,36 @@ def run_unit(unit, ctx):
     n = len(its)
     if unit["kind"] == "short":
         for ln in (1, 2):
-            for idx in product(range(n), repeat=ln):
+            for rest_ in product(range(n), repeat=ln - 1):
+                idx = (unit["first"],) + rest_
                 for var in VARIANTS:
                     check_acl("ios", idx, var, ctx)
                 check_acl("nxos", idx, VARIANTS[0], ctx)
+        return
+    if unit["kind"] == "twins":
+        # equal-text ACLs with different group members, one after the other IN ONE PROCESS
+        # (wide members first): nothing may be shared between ACL objects by their text
+        ctxi = [1, 2, 3, 4]
+        for n_ctx in (1, 2):
+            for combo in product(ctxi, repeat=n_ctx):
+                for pos in range(n_ctx + 1):
+                    for grp in (6, 7):  # p_grp_wide, then p_grp_memberwise
+                        idx = combo[:pos] + (grp,) + combo[pos:]
+                        check_acl("ios", idx, VARIANTS[0], ctx)
+                        check_acl("ios", idx, VARIANTS[1], ctx)
         return
     first = tuple(unit["first"])
     if unit["kind"] == "lists":
         for ln in range(3, _L(ctx.tier) + 1):
             for rest in product(range(n), repeat=ln - 2):
-                for var in (VARIANTS[:2] if ctx.tier == "quick" else VARIANTS[:4]):
+                if ctx.tier == "quick" and any(i in HEAVY for i in first + rest):
+                    continue  # quick: the neq items (65k-port lists, slow) only in lists <= 2
+                core = all(i in CORE for i in first + rest)
+                for vi, var in enumerate(VARIANTS[:4]):
+                    if vi and not core and ctx.tier == "quick":
+                        continue  # quick: the non-core items at full length only flat/unnumbered
+                    if vi >= 2 and ctx.tier == "quick":
+                        continue
                     check_acl("ios", first + rest, var, ctx)
                 if ctx.tier == "thorough" and ln == 3:
                     check_acl("nxos", first + rest, VARIANTS[0], ctx)
@@ -129,6 +158,9 @@ def check_acl(platform, idx, var, ctx):
     lst = [its[i] for i in idx]
     if not any(it.is_ace for it in lst) or any(it.is_ace and not it.acex.valid(platform) for it in lst):
         return
+    labels_ = {it.label for it in lst}
+    if "p_grp_wide" in labels_ and "p_grp_memberwise" in labels_:
+        return  # one configuration defines a group name once: the two variants never meet in one ACL
     ctx.ev()
     case = dict(kind="acl", platform=platform, idx=list(idx), variant=var,
                 lines=[it.text(platform) for it in lst])
@@ -139,6 +171,17 @@ def check_acl(platform, idx, var, ctx):
         ctx.viol("harness_or_build:exception", case, repr(ex), "ACL built")
         return
     skip = var["skip"]
+    if any(it.label.startswith("p_grp") for it in lst):
+        # "audit one ACL, clean another": an identical-text ACL (possibly with other group members)
+        # is queried and then kept alive UNMODIFIED in this process, so that a result shared
+        # between equal-text ACL objects shows up on a later case
+        try:
+            audit = PR.build_acl(lst, platform, group_by=PREFIX if var["grouped"] else "",
+                                 numbered=var["numbered"])
+            audit.shading(skip)
+            _KEEP.append(audit)
+        except Exception:  # noqa
+            pass
     before = PR.flat_lines(acl)
     kinds_real = [PR.strip_seq(ln).split()[0] == "remark" for ln in before]
     remarks_real = [PR.strip_seq(ln) for ln in before if PR.strip_seq(ln).startswith("remark")]
